@@ -279,6 +279,12 @@ func wireRuns(run *vh.Run, n int) {
 		runE2E(run, sc, 5000+anc)
 		run.Count("wire:scripted")
 	}
+	// the full scan with a failed probe at a height that IS shared (the search must not take it for "different")
+	for k, hbn := range []int{hbnNotFound, hbnInternal, hbnLost} {
+		runE2E(run, &e2eScenario{addErrAt: -1, stopAt: -1, seed: rng.Next(), L: 30, F: 20 + k, R: 34, npeers: 2, hashReq: 5, fetchSize: 3, pendConn: 2, tasks: 2, fullOnly: true,
+			wire: &wireCfg{hbn: hbn, hbnAt: 1 + k%2, swapAt: -1}}, 5200+k)
+		run.Count("wire:scripted")
+	}
 	// fault-free, the highest shared anchor is far down the anchor list (18th of 32); the remote stores the local branch as a side branch
 	runE2E(run, &e2eScenario{addErrAt: -1, stopAt: -1, seed: rng.Next(), L: 520, F: 250, R: 523, npeers: 2, hashReq: 100, fetchSize: 40, pendConn: 4, tasks: 3,
 		wire: &wireCfg{swapAt: -1, remoteSd: 60}}, 5100)
